@@ -185,6 +185,7 @@ func (d *OrderedDaemon) BackgroundWorker(name string, handler WorkerFunc, order 
 	if d.IsStopped() {
 		return ErrDaemonAlreadyStopped
 	}
+	verifYield("BackgroundWorker:after-stopped-check")
 
 	d.lock.Lock()
 	defer d.lock.Unlock()
